@@ -4,23 +4,33 @@ TLC validates the log against LiskBFT (every step deterministic => logged state 
 checking RoundRobinFinal / HeightsSane / Monotone in every state.
 (A) exhaustive single-chain enumeration by TLC (all generator / maxHeightGenerated choices, one parameter change)
 replayed through the real module."""
-import json, os
+import json, os, re
 import common
 from common import Inconclusive, finish, log
 from props import c01
 
 LEVEL = "model_checking"
 
-def validate(ctx, binp, chains, seed, tag):
+def validate(ctx, binp, chains, seed, tag, cfg="LiskBFTTrace"):
     tr = ctx.path("trace_%s.ndjson" % tag); meta = ctx.path("meta_%s.json" % tag)
     p = ctx.run([binp, tr, meta, str(chains)], env={"VERIF_SEED": str(seed)}, timeout=1800)
     if p.returncode != 0:
         raise Inconclusive("recorder failed: %s %s" % (p.stderr[-1500:], open(meta).read() if os.path.exists(meta) else ""))
     m = json.load(open(meta))
     lines = open(tr).read().splitlines()
-    r = ctx.tlc("LiskBFTTrace", "LiskBFTTrace", workers=1, timeout=3000, files={"trace.ndjson": tr})
+    r = ctx.tlc("LiskBFTTrace", cfg, workers=1, timeout=3000, files={"trace.ndjson": tr})
     accepted = r["distinct"] - 1
     res = dict(meta=m, events=len(lines), accepted=accepted, mismatch=None)
+    if cfg != "LiskBFTTrace":
+        # non-blocking mode (C07): only the contradiction probes are judged; the first one that differs is reported
+        cm = re.findall(r'<<"MISMATCH-CONTRA", (\d+), (TRUE|FALSE)>>', r["out"])
+        if cm:
+            ln = int(cm[0][0])
+            start = max(i for i in range(min(ln, len(lines))) if '"ev":"Init"' in lines[i])
+            res["mismatch"] = dict(kind="contra", line=ln, detail="ContraChain = %s" % cm[0][1], chain_prefix=[json.loads(x) for x in lines[start:ln]][-14:],
+                                   observed=json.loads(lines[ln - 1]))
+        res["sample"] = [json.loads(x) for x in lines[:4]]
+        return res
     if r["violation"]:
         # an invariant of the spec is false in a state the real code reached
         inv = [l for l in r["out"].splitlines() if "is violated" in l]
